@@ -746,10 +746,79 @@ def single_caller_helpers(facts, anchors, pinned):
     return out
 
 
+def _is_instrument_exp(exp):
+    return bool(exp) and any(str(x).startswith("attribute macro:") and str(x).endswith("instrument") for x in exp)
+
+
+def _renumber_env(obj, env_adt_old, env_adt_new, mapping, names):
+    """Places `_1.<j>` of the inner block's environment become `_1.<mapping[j]>` of the outer one's."""
+    if isinstance(obj, dict):
+        if obj.get("l") == 1 and isinstance(obj.get("p"), list) and obj["p"] and isinstance(obj["p"][0], dict) and "f" in obj["p"][0] \
+                and obj["p"][0].get("adt") == env_adt_old:
+            j = obj["p"][0]["f"]
+            head = dict(obj["p"][0], f=mapping[j], n=names[mapping[j]], adt=env_adt_new)
+            return {**{k: _renumber_env(v, env_adt_old, env_adt_new, mapping, names) for k, v in obj.items() if k != "p"},
+                    "p": [head] + [_renumber_env(e, env_adt_old, env_adt_new, mapping, names) for e in obj["p"][1:]]}
+        return {k: _renumber_env(v, env_adt_old, env_adt_new, mapping, names) for k, v in obj.items()}
+    if isinstance(obj, list):
+        return [_renumber_env(v, env_adt_old, env_adt_new, mapping, names) for v in obj]
+    return obj
+
+
+def collapse_instrument_shells(facts):
+    """`#[tracing::instrument] async fn f(..) { body }` expands to a coroutine that builds a span, wraps `async move { body }` and
+    awaits it (instrumented, or bare when the span is disabled).  That outer coroutine is a shell: the inner block - the function's
+    own code - takes its place (its captures are the function's parameters, renumbered), so that an async fn reads the same with
+    and without the attribute.  [(shell def, inner def)]"""
+    out = []
+    for c in facts.crates:
+        for s in list(c.body_list):
+            if not s.is_coroutine or getattr(s, "hidden", False):
+                continue
+            live = s.live_blocks()
+            aggs = []
+            for bb in sorted(live):
+                for st in s.blocks[bb]["stmts"]:
+                    if st["k"] == "assign" and st["rv"].get("agg") == "coroutine":
+                        aggs.append(st)
+            if len(aggs) != 1 or not _is_instrument_exp(aggs[0].get("exp")) or aggs[0]["lhs"]["p"]:
+                continue
+            inner = c.bodies.get(aggs[0]["rv"]["def"])
+            if inner is None or not inner.is_coroutine or not inner.def_.startswith(s.def_ + "::{closure#") or inner.j.get("parent") != s.def_:
+                continue
+            # every other live call of the shell belongs to the attribute's expansion, to its field expressions, or awaits the block
+            names = [cap.get("name") for cap in s.j["captures"]]
+            mapping = []
+            for op in aggs[0]["rv"]["ops"]:
+                e = s.operand_expr(op)
+                while e[0] in ("copy", "move"):
+                    e = e[1]
+                if e[0] == "field" and e[1] == ("env",) and e[2] in names and names.count(e[2]) == 1:
+                    mapping.append(names.index(e[2]))
+                else:
+                    mapping = None
+                    break
+            if mapping is None or len(mapping) != len(inner.j["captures"]):
+                continue
+            nj = copy.deepcopy(inner.j)
+            nj = _renumber_env(nj, "closure:" + inner.def_, "closure:" + s.def_, mapping, names)
+            nj["def"] = s.def_
+            nj["parent"] = s.j.get("parent")
+            nj["captures"] = copy.deepcopy(s.j["captures"])
+            nb = Body(c, nj)
+            c.bodies[nb.def_] = nb
+            c.body_list[c.body_list.index(s)] = nb
+            inner.hidden = True
+            out.append((s.def_, inner.def_))
+    return out
+
+
 def apply(facts, anchors, pinned):
     """Inline until a fixpoint (bounded). Replaces anchor bodies in `facts`; inlined helpers are hidden from all_bodies()."""
     done = []
     from . import desugar
+    done.extend(collapse_instrument_shells(facts))
+    facts.inlined = done
     for _ in range(MAX_ROUNDS + 2):
         # closures with effects handed to immediately-invoking combinators, iterator chains driven by for_each / try_for_each
         changed = False
